@@ -25,7 +25,12 @@ type verifJob struct {
 	Env   map[string]string `json:"env,omitempty"`
 	Cwd   string            `json:"cwd,omitempty"`
 	Reps  int               `json:"reps,omitempty"`
+	// Reuse: run on the one App value this process keeps for such jobs (a caller that builds
+	// the app once and calls Run for every request) instead of a fresh GetApp() per run
+	Reuse bool `json:"reuse,omitempty"`
 }
+
+var verifSharedApp *cli.App
 
 type verifRun struct {
 	Out   string `json:"out"`
@@ -53,7 +58,7 @@ func verifDrain(r *os.File) chan []byte {
 }
 
 // verifRunApp runs the production app once with stdout/stderr captured
-func verifRunApp(args []string) (run verifRun) {
+func verifRunApp(args []string, reuse bool) (run verifRun) {
 	realOut, realErr, realErrWriter := os.Stdout, os.Stderr, cli.ErrWriter
 	ro, wo, err := os.Pipe()
 	if err != nil {
@@ -78,7 +83,14 @@ func verifRunApp(args []string) (run verifRun) {
 				run.Panic = fmt.Sprintf("%v\n%s", p, debug.Stack())
 			}
 		}()
-		runErr = GetApp().Run(args)
+		app := GetApp()
+		if reuse {
+			if verifSharedApp == nil {
+				verifSharedApp = app
+			}
+			app = verifSharedApp
+		}
+		runErr = app.Run(args)
 	}()
 	os.Stdout, os.Stderr, cli.ErrWriter = realOut, realErr, realErrWriter
 	wo.Close()
@@ -128,7 +140,7 @@ func verifServe() {
 							j.Reps = 1
 						}
 						for i := 0; i < j.Reps; i++ {
-							run := verifRunApp(append([]string{"hranoprovod-cli"}, j.Args...))
+							run := verifRunApp(append([]string{"hranoprovod-cli"}, j.Args...), j.Reuse)
 							merged := false
 							for k := range rs.Runs {
 								o := &rs.Runs[k]
